@@ -1048,9 +1048,9 @@ func runC14(c *Ctx) {
 			}
 		}
 
-		// --- binary STL whose triangle count is a multiple of 256 (low count byte 0), cut around the count field ---------
+		// --- binary STL whose triangle count is a multiple of 256 (low count byte 0): 256, 512, thorough also 2048, cut around the count field ---------
 		if k == 1 || k == 2 || (c.Tier == "thorough" && k == 3) {
-			nt := map[int]int{1: 256, 2: 512, 3: 65536}[k]
+			nt := map[int]int{1: 256, 2: 512, 3: 2048}[k] // (65536 is out of reach of the List-based model reader: quadratic)
 			few := nt > 1000
 			var b bytes.Buffer
 			if err := stl.WriteMesh(&b, c.c14mesh(50, nt, false, false, false)); err == nil {
